@@ -158,7 +158,7 @@ func (w *World) computeFinalFields() {
 
 // isFinalComp reports whether a heap component is a final field (see computeFinalFields).
 func (w *World) isFinalComp(c string) bool {
-	if c == compRangeIter || c == compMustCall {
+	if isRangeMarkerComp(c) || c == compMustCall {
 		return true // engine-internal iteration counters: no call can change them
 	}
 	if w.finalFields[c] {
